@@ -90,6 +90,7 @@ extern "C" void mp_pow_ui(long &r, long b, unsigned long e)
 {
 #ifdef EXACT_ABSTRACT
   long x = nondet_long();
+  __CPROVER_assume(x > -(1L << 62) && x < (1L << 62));      /* stands for a mathematical integer: abs/negation cannot wrap */
   __CPROVER_assume((x == 0) == (b == 0 && e != 0)); __CPROVER_assume(!(e == 0) || x == 1); __CPROVER_assume(!(b > 0) || x > 0);
   r = x;
 #else
@@ -153,6 +154,9 @@ extern "C" void h_powint(void)
 {
   init();
   long a = nondet_long(), e = nondet_long(); RANGE(a, -3, 3); RANGE(e, -POW_MAX, POW_MAX);
+#ifndef EXACT_ABSTRACT
+  __CPROVER_assume((a >= -2 && a <= 2) || (e >= -3 && e <= 3));      /* |a|^|e| <= 27: inside the gcd/quotient tables */
+#endif
   Integer A, E; A.i = a; E.i = e;
   verif_may_throw = false;
   RCPNumber r = A.powint(E);
